@@ -32,10 +32,20 @@ def run(ctx) -> None:
     for dev in concrete_devices(ctx):
         ctx.guard("C11.condense-count", condense_count, dev)
         ctx.guard("C11.lvh-count", lvh_count, dev)
+        ctx.guard("C11.lvh-note", lvh_note_once, dev)
     ctx.guard("C11.slice-zero", slice_zero)
     ctx.guard("C11.report", report)
     ctx.guard("C11.distribute", distribute)
     ctx.guard("C11.per-call", per_call_ops)
+    # the live volume array belongs to one labware: an array handed out earlier (volumes / history) is never its buffer
+    from . import c02
+
+    from .common import none_concat_rule
+
+    ctx.guard("C11.lvh-note", none_concat_rule, "C11.lvh-note", ("EvoWorklist.transfer", "FluentWorklist.transfer", "Labware.condense_log", "Labware.log", "Labware.add", "Labware.remove"),
+              "recording the operation (an unlabelled operation is valid)")
+    ctx.reuse("C11.snapshot", c02.ctor)
+    ctx.reuse("C11.snapshot", c02.alias)
 
 
 def owner(ctx) -> None:
@@ -359,6 +369,65 @@ def lvh_count(ctx, dev) -> None:
     w = f.where(defs[-1].ast) if defs else f.where()
     ctx.rep.check(True if verdict == "holds" else False if verdict == "refuted" else None, rule, cb + "/summand",
                   detail, detail + (": the history label reports a wrong number of LVH steps" if verdict == "refuted" else ""), where=w)
+
+
+def lvh_note_once(ctx, dev) -> None:
+    """The label handed to condense_log is the operation's label with at most one large-volume note: following the
+    definitions of the label variable backwards from every condense_log call, at most one of them appends `... LVH steps`."""
+    rule = "C11.lvh-note"
+    f = ctx.prog.find_method(dev, "transfer")
+    if f is None:
+        raise AnalysisInconclusive(rule, f"{dev.name}.transfer", "not found")
+    fv = ctx.fv(f, dev)
+    cb = f"{dev.name}.transfer"
+    rd = fv.cfg.reaching()
+
+    def is_note(e: ast.AST) -> bool:
+        return any(isinstance(x, ast.Constant) and isinstance(x.value, str) and "LVH" in x.value for x in ast.walk(e))
+
+    memo = {}
+
+    def depth(var: str, at: int, stack=()) -> int:
+        """largest number of LVH notes the text in `var` can carry at node `at`"""
+        k = (var, at)
+        if k in memo:
+            return memo[k]
+        if k in stack:
+            return 0
+        best = 0
+        for d in rd[at].get(var, ()):
+            dn = fv.cfg.nodes[d]
+            if dn.kind != "stmt" or not isinstance(dn.ast, (ast.Assign, ast.AugAssign, ast.AnnAssign)) or dn.ast.value is None:
+                continue
+            v = dn.ast.value
+            own = 1 if is_note(v) else 0
+            inner = 0
+            names = {x.id for x in ast.walk(v) if isinstance(x, ast.Name)}
+            if isinstance(dn.ast, ast.AugAssign):
+                names.add(var)
+            for nm in names:
+                if nm == var or any(isinstance(fv.cfg.nodes[d2].ast, (ast.Assign, ast.AugAssign, ast.AnnAssign)) and fv.cfg.nodes[d2].kind == "stmt" and
+                                    getattr(fv.cfg.nodes[d2].ast, "value", None) is not None and (is_note(fv.cfg.nodes[d2].ast.value) or "label" in {y.id for y in ast.walk(fv.cfg.nodes[d2].ast.value) if isinstance(y, ast.Name)})
+                                    for d2 in rd[d].get(nm, ())):
+                    inner = max(inner, depth(nm, d, stack + (k,)))
+            best = max(best, own + inner)
+        memo[k] = best
+        return best
+
+    n = 0
+    for cs in fv.calls():
+        if not (cs.callee.kind == "func" and cs.callee.func.short == "Labware.condense_log"):
+            continue
+        la = (fv.bind_args(cs) or {}).get("label")
+        if la is None:
+            continue
+        n += 1
+        names = [x.id for x in ast.walk(la) if isinstance(x, ast.Name)]
+        dmax = (1 if is_note(la) else 0) + max([depth(nm, cs.node) for nm in names] or [0])
+        ctx.rep.check(dmax <= 1, rule, f"{cb}/{stmt_key(cs.call)[:50]}", "the condensed entry's label carries at most one large-volume note",
+                      f"the label handed to `{stmt_key(cs.call)[:50]}` can have passed through {dmax} statements that each append an `LVH steps` note: the newest history entry "
+                      "reads `<label> (n LVH steps) (n LVH steps)`", where=f.where(cs.call))
+    ctx.rep.floor(rule, f"{cb}: condense_log calls with a label", n, 2)
 
 
 def slice_zero(ctx) -> None:
